@@ -179,7 +179,7 @@ impl Machine {
                         }
                         ops::bin(r, a, wa, b, wb).ok_or_else(|| Abort::Undefined(format!("{name} undefined")))
                     }
-                    None => Ok((fixed_hash(&("float", &name, a, b)) as u128) & ops::mask(size)),
+                    None => Ok((fixed_hash(&("float", ops::float_key(&name), a, b)) as u128) & ops::mask(size)),
                 }
             }
             Expression::UnOp { op, arg } => {
@@ -194,7 +194,7 @@ impl Machine {
                 };
                 match r {
                     Some(r) => ops::un(r, a, w).ok_or_else(|| Abort::Undefined(format!("{name} on non-boolean"))),
-                    None => Ok((fixed_hash(&("float", &name, a)) as u128) & ops::mask(size)),
+                    None => Ok((fixed_hash(&("float", ops::float_key(&name), a)) as u128) & ops::mask(size)),
                 }
             }
             Expression::Cast { op, size: to, arg } => {
@@ -216,7 +216,7 @@ impl Machine {
                         }
                         Ok(ops::cast(r, a, w, to))
                     }
-                    None => Ok((fixed_hash(&("float", &name, a)) as u128) & ops::mask(to)),
+                    None => Ok((fixed_hash(&("float", ops::float_key(&name), a)) as u128) & ops::mask(to)),
                 }
             }
             Expression::Subpiece { low_byte, size, arg } => {
